@@ -176,6 +176,14 @@ def cases(tier, seed):
     for cls, size in OPT_CODES[tier]:
         for noise in NOISES:
             out.append({'part': 'opt', 'cls': cls, 'size': size, 'noise': noise, 'rates': _rates_for(noise)})
+    # the same optimality cases with a noise-model OBJECT that has served the transposed lattice (same class, same
+    # qubit count, other shape) before: the weights must be those of the code being decoded
+    for cls, size in OPT_CODES[tier]:
+        if size[0] != size[1] and cls != 'Toric2DCode' or (tier == 'thorough' and size[0] != size[1]):
+            for noise in NOISES:
+                if noise[2] is not None:
+                    out.append({'part': 'opt', 'cls': cls, 'size': size, 'noise': noise, 'rates': _rates_for(noise)[:1],
+                                'primed_on': size[::-1]})
     sm = []
     lmax = b['sm_toric3d_max_n'] // 27
     for s in itertools.product(range(3, lmax + 1), repeat=3):
@@ -309,11 +317,17 @@ def _eval_opt(case):
 
     def key(kind, **k2):
         k = _base_key(case, kind, noise=label, deformation=deformation, axis=axis)
+        if case.get('primed_on'):
+            k['noise_model_used_before_on'] = list(case['primed_on'])
         k.update(k2)
         return k
 
     for p in case['rates']:
         em = PauliErrorModel(direction[0], direction[1], direction[2], deformation, dict(kw) if kw else None)
+        if case.get('primed_on'):
+            other = _build_code(cls, case['primed_on'])
+            em.probability_distribution(other, p)
+            em.get_weights(other, p)
         qx, qz = _ref_marginals(cls, coords, direction, deformation, axis, p)
         assert max(qx) < 0.5 and max(qz) < 0.5
         wpan = em.get_weights(code, p)
